@@ -30,6 +30,7 @@ THEOREMS = [
     "c04_code_is_instance",
     "c04_any_choice",
     "c04_session_records_answer_seq_any_choice",
+    "c04_earlier_answers_unaffected",
     "c04_handshake_sound_any_choice",
     "c04_versionlib_translated",
     "c04_negotiate_first_common",
@@ -46,7 +47,9 @@ THEOREMS = [
 RULE = (
     "server: requested protocolVersion in {each supported version, every calendar date 1925-01-01..2124-12-31, seeded dddd-dd-dd strings "
     "(3 k quick / 500 k thorough), mutations of the supported versions, malformed strings, non-strings of "
-    "every JSON type, absent in 4 shapes}, and sequences of 2-3 initialize requests on one handler with and without a carried "
+    "every JSON type, absent in 4 shapes}, and sequences of 2-3 initialize requests on one handler (answers and session records read right after "
+    "each step AND again after the whole sequence; answers only serialised after the sequence; requests handed over concurrently "
+    "from a task group) with and without a carried "
     "(live or stale) session id, through the real handle_message, compared with serverAnswer on the regenerated constants; "
     "handshake: the real send_initialize against the real handler over an in-memory pipe (messages cross as JSON text) for every client "
     "list of length<=3 over 3 real + 3 invented versions x 9 preferred, compared with the composed model; "
@@ -168,8 +171,23 @@ class Server(Suite):
             for carry in (None, "prev"):
                 out.append({"steps": [{"req": a, "carry": None}, {"req": a, "carry": carry, "same_object": True},
                                       {"req": reqs[0] if a is not reqs[0] else reqs[1], "carry": carry}]})
+        # answers that are only serialised after LATER requests were handled (a server loop that handles what is pending and then
+        # flushes; several connections on one handler): every ordered pair and triple of request kinds, read late only / read
+        # twice; and the same requests handed over concurrently from a task group
+        for a in reqs:
+            for b in reqs:
+                out.append({"steps": [{"req": a, "carry": None}, {"req": b, "carry": None}], "read": "late"})
+                out.append({"steps": [{"req": a, "carry": None}, {"req": b, "carry": None}], "concurrent": True})
+                out.append({"steps": [{"req": a, "carry": None}, {"req": b, "carry": "prev"}], "read": "late"})
+                for c in reqs:
+                    out.append({"steps": [{"req": a, "carry": None}, {"req": b, "carry": None}, {"req": c, "carry": None}], "read": "late"})
+                    if a is reqs[0] or c is reqs[1]:
+                        out.append({"steps": [{"req": a, "carry": None}, {"req": b, "carry": None}, {"req": c, "carry": None}],
+                                    "concurrent": True})
         # a long-lived handler: 150 initialize requests cycling through the request kinds, every second one carrying the previous id
         out.append({"steps": [{"req": reqs[i % len(reqs)], "carry": ("prev" if i % 2 else None)} for i in range(150)]})
+        out.append({"steps": [{"req": reqs[i % len(reqs)], "carry": None} for i in range(150)], "read": "late"})
+        out.append({"steps": [{"req": reqs[(i * 5) % len(reqs)], "carry": None} for i in range(100)], "concurrent": True})
         for pattern in (("prev", "prev"), ("first", "first"), (None, "prev"), ("prev", None), ("bogus", "prev")):
             for a in reqs:
                 for b in reqs:
@@ -222,9 +240,20 @@ class Server(Suite):
             if len(o["steps"]) != len(m["steps"]):
                 return "step count differs"
             for so, sm in zip(o["steps"], m["steps"]):
-                d = self.compare({"req": None}, so, sm)
+                if so.get("session_superseded"):
+                    d = None if (so.get("kind") == "result" and so.get("answered") == sm["answered"]) else "answered version differs"
+                else:
+                    d = self.compare({"req": None}, so, sm)
                 if d:
                     return d
+                late = so.get("late")
+                if late is not None:  # the same answer / record when looked at after the whole sequence
+                    if late.get("kind") != "result" or late.get("answered") != sm["answered"]:
+                        return "answered version differs when serialised after later requests"
+                    if late.get("has_session") and not late.get("sid_reissued") and late.get("session") != sm["recorded"]:
+                        return "recorded version differs when looked up after later requests"
+                    if "session_object" in late and not late.get("sid_reissued") and late["session_object"] != sm["recorded"]:
+                        return "session record object differs after later requests"
             return None
         if o.get("kind") != "result" or not o.get("has_session"):
             return "no result / no session"
@@ -236,10 +265,32 @@ class Server(Suite):
 
     def oracle(self, case, o):
         if "steps" in case:
+            n = len(case["steps"])
             for i, (st, so) in enumerate(zip(case["steps"], o["steps"])):
                 v = self.oracle({"req": st["req"]}, so)
+                late = so.get("late")
+                if v is None and late is not None and i < n - 1:
+                    # whenever it is serialised, the response must carry a supported version = what that session recorded
+                    lo = {"kind": late.get("kind"), "answered": late.get("answered"), "has_session": False}
+                    if late.get("has_session") and not late.get("sid_reissued"):
+                        lo.update(has_session=True, session=late.get("session"))
+                    elif "session_object" in late and not late.get("sid_reissued"):
+                        lo.update(has_session=True, session=late.get("session_object"))
+                    v = self.oracle({"req": st["req"]}, lo)
+                    if v is None and "session_object" in late and not late.get("sid_reissued") and isinstance(late.get("answered"), str) \
+                            and canon(late["session_object"]) != canon(late["answered"]):
+                        v = ("session-version-differs", f"initialize requesting {describe(st['req'])}: answered {late['answered']!r} but the "
+                             f"session record handed out for it says {canon(late['session_object'])}", {"session": late["answered"]})
+                    if v is not None:
+                        later = ", ".join(describe(s_["req"]) for s_ in case["steps"][i + 1:])
+                        how = "handed over concurrently" if case.get("concurrent") else "handled"
+                        v = (v[0] + "-after-later-requests",
+                             f"initialize no. {i + 1} of {n} on one handler, looked at after the later requests ({later}) were {how}: " + v[1], v[2])
+                        return v
                 if v is not None:
                     key, what, exp = v
+                    if so.get("read_late_only"):
+                        what += " (every answer of the sequence was serialised only after the last request had been handled)"
                     if i > 0:
                         carried = {None: "no session id", "prev": "the session id of the previous initialize",
                                    "first": "the session id of the first initialize", "bogus": "a session id never issued",
@@ -282,8 +333,9 @@ class Server(Suite):
             n = len(case["steps"])
             extra = "".join(sorted({"/between:" + "+".join(s["between"]) for s in case["steps"] if s.get("between")}
                                    | {"/same-object" for s in case["steps"] if s.get("same_object")}))
-            return "sequence/%s/%s/%s%s" % (n if n <= 3 else "long", "+".join(dict.fromkeys(str(s.get("carry")) for s in case["steps"][1:])),
-                                            reuse, extra)
+            mode = "/concurrent" if case.get("concurrent") else ("/answers-read-after-the-sequence" if case.get("read") == "late" else "")
+            return "sequence/%s/%s/%s%s%s" % (n if n <= 3 else "long", "+".join(dict.fromkeys(str(s.get("carry")) for s in case["steps"][1:])),
+                                              reuse, extra, mode)
         r = case["req"]
         dress = "".join(["/id:" + type(V.REQUEST_IDS[r["id"]]).__name__ + ("-falsy" if not V.REQUEST_IDS[r["id"]] else "") if r.get("id") is not None else "",
                          "/clientInfo:" + r["ci"] if r.get("ci") else "", "/layout:" + r["layout"] if r.get("layout") else ""])
@@ -314,7 +366,7 @@ class Server(Suite):
             if len(steps) > 2:
                 for i in range(len(steps)):
                     rest = steps[:i] + steps[i + 1:]
-                    yield {"steps": [dict(rest[0], carry=None)] + rest[1:]}
+                    yield dict(case, steps=[dict(rest[0], carry=None)] + rest[1:])
             return
         r = case["req"]
         if r["k"] == "json" and canon(r["v"]) != "0":
@@ -341,6 +393,16 @@ class Handshake(Suite):
             out += [{"sup": sup, "pref": pref, "buf": buf} for sup in lists if sup is None or len(sup) <= 2 for pref in (None, "2024-11-05", "")]
         out += [{"sup": sup + tail, "pref": pref, "buf": (None, 0)[i % 2]} for i, sup in enumerate(magic)
                 for tail in ([], ["2025-03-26"]) for pref in (None, sup[0])]
+        # several clients on ONE handler whose server loop handles every pending initialize before it serialises any answer
+        clients = [{"sup": [v], "pref": None} for v in V.REAL] + [
+            {"sup": None, "pref": None}, {"sup": None, "pref": "2024-11-05"}, {"sup": ["2026-01-01"], "pref": None},
+            {"sup": ["2026-01-01", "2024-11-05"], "pref": None}, {"sup": ["1999-12-31", "2025-03-26"], "pref": "2025-03-26"}]
+        for a in clients:
+            for b in clients:
+                out.append({"clients": [a, b]})
+        rng = ctx.sub_rng("c04-multi", budget)
+        for _ in range(60 if budget == "quick" else 600):
+            out.append({"clients": [rng.choice(clients) for _ in range(3)]})
         return out
 
     def impl_batch(self, cases):
@@ -349,11 +411,23 @@ class Handshake(Suite):
         return obs
 
     def model_line(self, case):
+        if "clients" in case:
+            obs = (getattr(self, "_last", {}).get(id(case)) or {}).get("clients") or []
+            return {"m": "version", "op": "handshakes", "clients": [
+                {"sup": cl["sup"], "pref": cl["pref"],
+                 "choice": obs[i].get("answered") if i < len(obs) and isinstance(obs[i].get("answered"), str) else None}
+                for i, cl in enumerate(case["clients"])]}
         a = (getattr(self, "_last", {}).get(id(case)) or {}).get("answered")
         return {"m": "version", "op": "handshake", "sup": case["sup"], "pref": case["pref"],
                 "choice": a if isinstance(a, str) else None}  # the server's free choice, see Server.choice
 
     def compare(self, case, o, m):
+        if "clients" in case:
+            for cl, co, cm in zip(case["clients"], o["clients"], m["clients"]):
+                d = self.compare(cl, co, cm)
+                if d:
+                    return d
+            return None
         if o.get("outcome") != m.get("outcome"):
             return "outcome differs"
         if o["outcome"] == "ok" and o.get("v") != m.get("v"):
@@ -365,6 +439,23 @@ class Handshake(Suite):
         return None
 
     def oracle(self, case, o):
+        if "clients" in case:
+            for i, (cl, co) in enumerate(zip(case["clients"], o["clients"])):
+                v = self.oracle(cl, co)
+                if v is None:
+                    # the server part of the property, seen from the wire: a proposal the server supports is acknowledged as such
+                    ssup_ = V.server_supported()
+                    csup_ = cl["sup"] if cl["sup"] is not None else ssup_
+                    prop = cl["pref"] if (cl["pref"] and cl["pref"] in csup_) else csup_[0]
+                    if prop in ssup_ and "answered" in co and co.get("answered") != prop:
+                        v = ("handshake-supported-version-not-acknowledged", f"client offering {csup_} proposed {prop!r}, which the server "
+                             f"supports, but the answer on the wire says {canon(co.get('answered'))} (client outcome: {co.get('outcome')})",
+                             {"answered": prop})
+                if v is not None:
+                    others = [canon(c_) for j, c_ in enumerate(case["clients"]) if j != i]
+                    return (v[0] + "-with-other-clients", f"client {i + 1} of {len(case['clients'])} on one handler whose loop handles every pending "
+                            f"initialize before serialising any answer (other clients: {', '.join(others)}): " + v[1], v[2])
+            return None
         ssup = V.server_supported()
         csup = case["sup"] if case["sup"] is not None else ssup
         if o.get("outcome") == "ok":
@@ -386,6 +477,8 @@ class Handshake(Suite):
         return None
 
     def kind(self, case, o):
+        if "clients" in case:
+            return "handshake/%d-clients-one-handler/%s" % (len(case["clients"]), "+".join(sorted(str(c_.get("outcome")) for c_ in o["clients"])))
         ssup = set(V.server_supported())
         csup = case["sup"] if case["sup"] is not None else list(ssup)
         common = "common" if ssup & set(csup) else "disjoint"
